@@ -9,9 +9,10 @@ use crate::verif::smast::{MastRun, PeerEv, SmastCase};
 #[derive(Clone, Debug)]
 pub enum H {
     /// request (non-confirm) written by the master and received by outstation `dest`
-    Request { t: u64, dest: u16, seq: u8, func: u8, bytes: Vec<u8>, session: u32 },
+    /// `worder` = world-wide order number of the moment the master wrote it
+    Request { t: u64, worder: u64, dest: u16, seq: u8, func: u8, bytes: Vec<u8>, session: u32 },
     /// CONFIRM written by the master
-    Confirm { t: u64, dest: u16, seq: u8, uns: bool, session: u32 },
+    Confirm { t: u64, worder: u64, dest: u16, seq: u8, uns: bool, session: u32 },
     /// fragment transmitted by the scripted outstation (t = time it reaches the master)
     PeerTx { t: u64, src: u16, bytes: Vec<u8>, kind: String, valid: bool, answers: Option<u64>, session: u32 },
     Begin { t: u64, assoc: u16, read_type: String, seq: u8, uns: bool },
@@ -30,6 +31,7 @@ pub enum H {
     GetTime { t: u64, assoc: u16, value: Option<u64> },
     Op { t: u64, index: usize },
     Other { t: u64, assoc: u16, what: String },
+    File { t: u64, id: u64, what: String, block: u32, len: usize, content_ok: bool, detail: String },
 }
 
 impl H {
@@ -53,6 +55,7 @@ impl H {
             | H::LinkRx { t, .. }
             | H::GetTime { t, .. }
             | H::Op { t, .. }
+            | H::File { t, .. }
             | H::Other { t, .. } => *t,
         }
     }
@@ -63,12 +66,13 @@ pub fn history(case: &SmastCase, run: &MastRun) -> Vec<(u64, H)> {
     let mut out: Vec<(u64, H)> = Vec::new();
     for ev in &run.peer_log {
         match ev {
-            PeerEv::Rx { t, order, dest, bytes, session, .. } => {
+            PeerEv::Rx { t, order, worder, dest, bytes, session, .. } => {
                 if bytes.len() >= 2 && bytes[1] == refapp::FUNC_CONFIRM {
                     out.push((
                         *order,
                         H::Confirm {
                             t: *t,
+                            worder: *worder,
                             dest: *dest,
                             seq: bytes[0] & 0x0F,
                             uns: bytes[0] & 0x10 != 0,
@@ -80,6 +84,7 @@ pub fn history(case: &SmastCase, run: &MastRun) -> Vec<(u64, H)> {
                         *order,
                         H::Request {
                             t: *t,
+                            worder: *worder,
                             dest: *dest,
                             seq: bytes.first().copied().unwrap_or(0) & 0x0F,
                             func: bytes.get(1).copied().unwrap_or(0xFF),
@@ -127,6 +132,7 @@ pub fn history(case: &SmastCase, run: &MastRun) -> Vec<(u64, H)> {
                     H::Other { t: *t, assoc: *assoc, what: what.clone() }
                 }
             }
+            MEv::File { id, what, block, len, content_ok, detail } => H::File { t: *t, id: *id, what: what.clone(), block: *block, len: *len, content_ok: *content_ok, detail: detail.clone() },
             MEv::AbsTime { assoc, t: v } => H::Other { t: *t, assoc: *assoc, what: format!("abs-time {}", v) },
         };
         out.push((*order, h));
@@ -155,6 +161,13 @@ pub fn master_time_history(case: &SmastCase, run: &MastRun) -> Vec<(u64, H)> {
             other => other.t(),
         }
     };
-    h.sort_by(|a, b| key(a).cmp(&key(b)).then(a.0.cmp(&b.0)));
+    // what the master wrote is placed where it wrote it
+    let ord = |e: &(u64, H)| -> u64 {
+        match &e.1 {
+            H::Request { worder, .. } | H::Confirm { worder, .. } => *worder,
+            _ => e.0,
+        }
+    };
+    h.sort_by(|a, b| key(a).cmp(&key(b)).then(ord(a).cmp(&ord(b))));
     h
 }
